@@ -10,6 +10,7 @@ Open Scope N_scope.
    them against Gen/OtaConsts.v (read from the AST of ota.py on every run). *)
 Definition fw_block_size : Z := 16.
 Definition fw_page_size : nat := 128.
+Definition fw_pad_byte : N := 255.
 
 Record fware := mkFware { fw_blocks : Z; fw_crc : Z; fw_data : list N }.
 
@@ -27,7 +28,7 @@ Definition crc16_modbus (b : list N) : Z := Z.of_N (fold_left crc_byte b 65535).
    (len/16 is a float division in Python; exact below 2^53 bytes) *)
 Definition prepare_fw (img : list N) : fware :=
   let pads := Nat.modulo (List.length img) fw_page_size in
-  let data := Nat.iter (fw_page_size - pads) (fun d => d ++ [255]) img in
+  let data := Nat.iter (fw_page_size - pads) (fun d => d ++ [fw_pad_byte]) img in
   mkFware (Z.of_nat (List.length data) / fw_block_size)%Z (crc16_modbus data) data.
 
 (* Python slice l[a:b] for arbitrary ints a, b (step 1) *)
